@@ -224,20 +224,25 @@ func modeC01(e *Env) {
 			g.MaxCols = 20
 			g.MaxUnits = 4
 		}
+		if i%6 == 2 {
+			// table widths at the byte boundaries of the presence / NULL bitmaps
+			g.ExactCols = []int{8, 16, 24, 7, 9, 32}[(i/6)%6]
+			g.MaxUnits = 8
+		}
 		if e.Thorough() && i%5 == 0 {
 			g = GenParams{MaxUnits: 40, MaxStmts: 6, MaxTables: 8, MaxRows: 20, MaxCols: 40, MaxFiles: 4, MaxPayload: 300}
 		}
 		l := GenLog(e.R, cfg, g, nil)
 		bs := l.Boundaries()
 		start := bs[0]
-		if i%3 != 0 {
+		if i%3 != 0 && g.ExactCols == 0 {
 			start = bs[e.R.Intn(len(bs))]
 		}
 		a := defaultAttempt()
 		if i%2 == 1 {
 			a.Pacing = "lockstep"
 		}
-		if i%4 == 2 {
+		if i%4 == 2 && g.ExactCols == 0 {
 			a.End = "cancel"
 		}
 		id++
@@ -395,6 +400,12 @@ func modeC04(e *Env) {
 		}
 		cfg := cfgs[e.R.Intn(len(cfgs))]
 		l := GenLog(e.R, cfg, gp, nil)
+		if li%3 == 1 {
+			// an empty file name is a valid position too (the master takes it as its first binlog): the library keeps
+			// the name it was given until a real rotation
+			l.Files[0].Name = ""
+			l.Layout()
+		}
 		start := l.Boundaries()[0]
 		if _, ntx := servedInfo(l, start); ntx == 0 {
 			li--
@@ -434,7 +445,7 @@ func modeC07(e *Env) {
 	id := 0
 	sids := []uint32{1, 2, 1<<31 - 1, 1 << 31, 1<<31 + 1, 1<<32 - 1, 0, 65536}
 	offs := []uint32{4, 5, 255, 256, 65535, 65536, 1<<31 - 1, 1 << 31, 1<<32 - 1, 1<<32 - 2}
-	names := []string{"a", "mysql-bin.000001", "b.1", "x.y.z.000099", "bin\xc3\xa9\xe4\xb8\xad.000002", "with space.01",
+	names := []string{"", "a", "mysql-bin.000001", "b.1", "x.y.z.000099", "bin\xc3\xa9\xe4\xb8\xad.000002", "with space.01",
 		string(bytesRepeat('n', 255)), string(bytesRepeat('q', 100)) + ".000001"}
 	n := e.N(40, 600)
 	for i := 0; i < n; i++ {
@@ -573,6 +584,24 @@ func stopPlans(l *Log, start Pos, r *rand.Rand, stride int) []AttemptPlan {
 			out = append(out, c)
 		}
 	}
+	// a failure that coincides with cancellation: the handler (or the table mapper) cancels the context - to stop the rest
+	// of the application - and then returns its error; the failure must still be reported
+	for k := 0; k < ntx; k++ {
+		a := defaultAttempt()
+		a.HandlerErrAt = k
+		a.CancelAtTx = k
+		out = append(out, a)
+	}
+	for name := range l.Tables() {
+		a := defaultAttempt()
+		a.MapperFault = "err:" + name
+		a.MapperCancels = true
+		out = append(out, a)
+		b := defaultAttempt()
+		b.MapperFault = "mismatch:" + name
+		b.MapperCancels = true
+		out = append(out, b)
+	}
 	// the caller cancels its context after Stream returned (e.g. a deferred cancel) and then asks Error()
 	for _, k := range transportFaults {
 		a := defaultAttempt()
@@ -644,6 +673,12 @@ func modeC05(e *Env) {
 					h.HandlerErrAt = 0
 					h.SkipError = true
 					atts = []AttemptPlan{h, p, defaultAttempt()}
+				}
+				if id%2 == 1 {
+					// half of the scenarios look for goroutines left behind before Error() is called for the first time
+					for k := range atts {
+						atts[k].LeakFirst = true
+					}
 				}
 				RunStreamScenario(e.Rec, &StreamScenario{ID: id, Fam: "c05", Log: l, Start: start, ServerID: 13, Attempts: atts, Note: "stop"})
 			}
@@ -1119,6 +1154,7 @@ func modeC05g(e *Env) {
 		l, a := scriptScenario(e.R, cfgs[i%len(cfgs)], steps)
 		clean := defaultAttempt()
 		clean.HookTrace = true
+		a.LeakFirst = i%2 == 1
 		// Error() cannot be held back (it has no hook point): when the script cancels between the call and its return the
 		// model's Error() result is not comparable with the real one
 		eresOK, called := true, false
@@ -1128,6 +1164,21 @@ func modeC05g(e *Env) {
 			}
 			if st[0] == "Cancel" && called {
 				eresOK = false
+			}
+		}
+		// done and the socket are closed together here (no hook point between them): a read the model places between the two
+		// sees another connection state than the real one
+		inClose := false
+		for _, st := range steps {
+			switch st[0] {
+			case "CloseDone":
+				inClose = true
+			case "CloseSocket":
+				inClose = false
+			case "ReaderRead":
+				if inClose {
+					eresOK = false
+				}
 			}
 		}
 		eres := s["eres"]
